@@ -29,6 +29,17 @@ def step : List String → String
       | .error .insufficient => "err:insufficient"
       | .error .noPermission => "panic"
     | _, _, _ => "bad-op"
+  | ["burn2", m, a, b] =>
+    -- one BurnCoins call with two denominations: each denomination is burned (or redirected) on its own
+    match m.toNat?, a.toNat?, b.toNat? with
+    | some m, some a, some b =>
+      let one (amt : Nat) : String :=
+        let s : State := { bal := fun x => if x = m then amt else 0, supply := amt + 1000000, communityPool := 0 }
+        match burnCoins redirected burner s m amt with
+        | .ok s' => s!"{(s.supply : Int) - s'.supply}/{s'.communityPool}/{if m = 0 then 0 else s'.bal 0}"
+        | .error _ => "err"
+      s!"ok a={one a} b={one b}"
+    | _, _, _ => "bad-op"
   | "fund" :: _ => "ok"
   | "creset" :: _ => "ok"
   | "slash" :: _ => "skip"
